@@ -961,10 +961,33 @@ func fragmentFunc(fset *token.FileSet, fd *ast.FuncDecl, sp spec) *ast.FuncDecl 
 	}
 	var found []ast.Stmt
 	matches := 0
+	if fr.Case != "" {
+		// the whole body of the one case clause (of a value switch) with this label text
+		ast.Inspect(fd.Body, func(n ast.Node) bool {
+			cc, ok := n.(*ast.CaseClause)
+			if !ok || cc.List == nil {
+				return true
+			}
+			var labels []string
+			for _, e := range cc.List {
+				var b strings.Builder
+				printer.Fprint(&b, fset, e)
+				labels = append(labels, b.String())
+			}
+			if strings.Join(labels, ", ") == fr.Case {
+				matches++
+				found = cc.Body
+			}
+			return true
+		})
+		if matches != 1 || len(found) == 0 {
+			fail(fset.Position(fd.Pos()), "fragment of %s: %d non-empty case clauses are labelled %q", sp.Func, matches, fr.Case)
+		}
+	}
 	ast.Inspect(fd.Body, func(n ast.Node) bool {
 		b, ok := n.(*ast.BlockStmt)
-		if !ok {
-			return true
+		if !ok || fr.Case != "" {
+			return fr.Case == ""
 		}
 		for i, s := range b.List {
 			if !strings.HasPrefix(line(s), fr.First) {
@@ -1000,6 +1023,25 @@ func fragmentFunc(fset *token.FileSet, fd *ast.FuncDecl, sp spec) *ast.FuncDecl 
 		rts = append(rts, t)
 	}
 	src := fmt.Sprintf("package p\nfunc f(%s) (%s) { return %s }\n", strings.Join(fr.Params, ", "), strings.Join(rts, ", "), strings.Join(fr.Results, ", "))
+	var zeros []string // zero literals of the results, for the error returns of a fragment with ErrLast
+	if fr.ErrLast {
+		src = fmt.Sprintf("package p\nfunc f(%s) (%s) { return %s }\n", strings.Join(fr.Params, ", "), strings.Join(append(append([]string{}, rts...), "error"), ", "),
+			strings.Join(append(append([]string{}, fr.Results...), "nil"), ", "))
+		for _, t := range rts {
+			switch {
+			case strings.HasPrefix(t, "[]"):
+				zeros = append(zeros, "nil")
+			case t == "bool":
+				zeros = append(zeros, "false")
+			case t == "int" || t == "int64":
+				zeros = append(zeros, "0")
+			case t == "string":
+				zeros = append(zeros, `""`)
+			default:
+				fail(fset.Position(fd.Pos()), "fragment with ErrLast: no zero literal for the result type %s", t)
+			}
+		}
+	}
 	pf, err := parser.ParseFile(fset, "fragment of "+sp.File+":"+sp.Func, src, parser.SkipObjectResolution)
 	if err != nil {
 		fail(fset.Position(fd.Pos()), "fragment signature: %v", err)
@@ -1029,6 +1071,19 @@ func fragmentFunc(fset *token.FileSet, fd *ast.FuncDecl, sp spec) *ast.FuncDecl 
 		for _, s := range ss {
 			switch t := s.(type) {
 			case *ast.ReturnStmt:
+				if n := len(t.Results); fr.ErrLast && n >= 1 && !isIdent(t.Results[n-1], "nil") {
+					// the enclosing function returns an error here: so does the fragment (zero values beside it)
+					var rs []ast.Expr
+					for _, z := range zeros {
+						ze, err := parser.ParseExpr(z)
+						if err != nil {
+							fail(fset.Position(t.Pos()), "internal: zero literal %s", z)
+						}
+						rs = append(rs, ze)
+					}
+					out = append(out, &ast.ReturnStmt{Return: t.Return, Results: append(rs, t.Results[n-1])})
+					continue
+				}
 				if fr.EarlyReturn == "" || line(t) != fr.EarlyReturn {
 					fail(fset.Position(t.Pos()), "return inside the fragment of %s (fragSpec.EarlyReturn is %q)", sp.Func, fr.EarlyReturn)
 				}
